@@ -181,9 +181,10 @@ func (gs *GraphicsState) SetTextMatrix(m model.Matrix) {
 
 // TranslateText translates the text matrix (Td operator)
 func (gs *GraphicsState) TranslateText(tx, ty float64) {
-	// Td is equivalent to: Tm = Tlm * T(tx, ty)
+	// Td: Tm = Tlm = T(tx, ty) x Tlm (ISO 32000-1 9.4.2): the offset is in
+	// text space, i.e. it is scaled/rotated by the current line matrix
 	translation := model.Translate(tx, ty)
-	gs.Text.TextLineMatrix = gs.Text.TextLineMatrix.Multiply(translation)
+	gs.Text.TextLineMatrix = translation.Multiply(gs.Text.TextLineMatrix)
 	gs.Text.TextMatrix = gs.Text.TextLineMatrix
 }
 
